@@ -175,7 +175,7 @@ theorem window_values (b : Block) (w : Window) (h : windowOf b = .ok w) :
     getNum b.attrs "X" = some w.x ∧ getNum b.attrs "Y" = some w.y ∧ getNum b.attrs "WIDTH" = some w.width ∧
     getNum b.attrs "HEIGHT" = some w.height ∧ getNum b.attrs "SETBACK" = some w.setback ∧ getStr b.attrs "GAP" = some w.cons ∧
     b.parent = some w.wall ∧
-    (w.overhang.isSome ↔ prodPos (numOr b.attrs "OVERHANG-D" 0) (numOr b.attrs "OVERHANG-W" 0) = true) := by
+    (w.overhang.isSome ↔ prodPos b.attrs "OVERHANG-D" "OVERHANG-W" = true) := by
   unfold windowOf at h
   simp only at h
   split at h
@@ -188,7 +188,7 @@ theorem window_values (b : Block) (w : Window) (h : windowOf b = .ok w) :
       · simp only [Except.ok.injEq] at h
         subst h
         refine ⟨reqNum_ok hx, reqNum_ok hy, reqNum_ok hww, reqNum_ok hhh, reqNum_ok hsb, reqStr_ok hc, hw, ?_⟩
-        by_cases hp : prodPos (numOr b.attrs "OVERHANG-D" 0) (numOr b.attrs "OVERHANG-W" 0) = true <;> simp [hp]
+        by_cases hp : prodPos b.attrs "OVERHANG-D" "OVERHANG-W" = true <;> simp [hp]
     all_goals cases h
 
 /-! ### spaces -/
